@@ -158,6 +158,7 @@ type Exec struct {
 	model     *Model // a model of the current path condition (nil if none is at hand)
 	modelMemo map[int]uint64
 	stubNested bool
+	noSummaries bool
 	snaps     []ArrExpr
 	pnotes    []string
 	skipIntrinsic *ssa.Function
@@ -178,6 +179,7 @@ type Exec struct {
 	tRefresh, tEval time.Duration
 	nRefresh int
 	funcsCache map[*ssa.Function]bool
+	byName     map[string]*ssa.Function
 }
 
 // Hooks lets the driver plug environment models in.
@@ -312,6 +314,7 @@ func (e *Exec) resetPath() {
 	e.known = map[*Term]bool{}
 	e.lenBounds = map[*Term]int{}
 	e.stubNested = false
+	e.noSummaries = false
 	e.snaps = nil
 	e.pnotes = nil
 	e.skipIntrinsic = nil
@@ -409,6 +412,9 @@ func (e *Exec) branch(cond *Term, likely bool) bool {
 		e.res.ByRange++
 		return v
 	}
+	if likely && os.Getenv("SYMGO_DEBUGRANGE") != "" && e.pos >= len(e.trail) {
+		fmt.Fprintf(os.Stderr, "RANGE-UNDECIDED %s\n", e.explainRange(cond))
+	}
 	if e.pos < len(e.trail) {
 		te := e.trail[e.pos]
 		if te.kind != tBranch || te.cond != cond {
@@ -480,7 +486,15 @@ func (e *Exec) branch(cond *Term, likely bool) bool {
 // fetches values for every input symbol and every byte-array read created so far.
 func (e *Exec) refreshModel() {
 	t0 := time.Now()
-	defer func() { e.tRefresh += time.Since(t0); e.nRefresh++ }()
+	defer func() {
+		e.tRefresh += time.Since(t0)
+		e.nRefresh++
+		if e.nRefresh >= 3 && e.tRefresh > time.Duration(e.nRefresh)*150*time.Millisecond {
+			// fetching models costs more than the queries they save on this harness
+			e.UseModels = false
+			e.model = nil
+		}
+	}()
 	e.model = nil
 	if !e.UseModels || e.solver.lastHard {
 		return
@@ -1295,4 +1309,47 @@ func (e *Exec) addWrittenGlobals(m map[string]string) {
 	if len(names) > 0 {
 		m["_written_globals"] = strings.Join(names, ",")
 	}
+}
+
+func (e *Exec) explainRange(cond *Term) string {
+	var sb strings.Builder
+	var walk func(t *Term, d int)
+	walk = func(t *Term, d int) {
+		if d > 3 {
+			return
+		}
+		switch t.Op {
+		case OpBAnd, OpBOr, OpBNot:
+			for _, a := range t.Args {
+				walk(a, d)
+			}
+		case OpSlt, OpUlt, OpEq:
+			for _, a := range t.Args {
+				r := e.rangeOf(a)
+				fmt.Fprintf(&sb, " [%s: ok=%v lo=%d hi=%d]", showDepth(a, 2), r.ok, r.lo, r.hi)
+				if a.lin != nil {
+					for _, lt := range a.lin.ts {
+						rr := e.rangeOf(lt.t)
+						fmt.Fprintf(&sb, " {%d*%s ok=%v %d..%d}", int64(lt.c), showDepth(lt.t, 1), rr.ok, rr.lo, rr.hi)
+					}
+				}
+			}
+		}
+	}
+	walk(cond, 0)
+	return sb.String()
+}
+
+func (e *Exec) funcByName(name string) *ssa.Function {
+	if e.byName == nil {
+		e.byName = map[string]*ssa.Function{}
+		for f := range e.allFuncs() {
+			e.byName[f.String()] = f
+		}
+	}
+	f := e.byName[name]
+	if f == nil {
+		e.unsupported("function %s not found in the program", name)
+	}
+	return f
 }
